@@ -70,6 +70,9 @@ if __name__ == '__main__':
     if args and args[0] == '--round2':
         STORE.update({'A': 'C', 'B': 'D'})
         args = args[1:]
+    elif args and args[0] == '--round3':
+        STORE.update({'A': 'E', 'B': 'F'})
+        args = args[1:]
     pairs = [(args[i], args[i + 1]) for i in range(0, len(args), 2)]
     with ThreadPoolExecutor(8) as ex:
         futs = [ex.submit(confirm, wt, pid, l) for wt, pid in pairs for l in 'AB']
